@@ -1,0 +1,48 @@
+//go:build verif
+
+// Contracts for the exovc verifier (/verif). Comment-only: with the tag off this file is not part
+// of the package, with the tag on it declares nothing.
+package avs
+
+// C10: AVS registration / update / deregistration / operator binding / task creation bind to the calling
+// contract's own address; registration and update additionally require a listed owner.
+// (guard obligations: what must hold whenever the keeper call is reached)
+
+//@ func (Precompile).RegisterAVS
+//@   requires contract != nil
+//@   modifies state(ctx)
+//@   flag havoc=GetAVSParamsFromInputs,UpdateAVSInfo
+//@   before[C10.pavs.register.bind]  UpdateAVSInfo requires arg_params.AvsAddress == ethaddrstr(old(contract.CallerAddress))
+//@   before[C10.pavs.register.owner] UpdateAVSInfo requires contains(arg_params.AvsOwnerAddress, arg_params.CallerAddress)
+
+//@ func (Precompile).DeregisterAVS
+//@   requires contract != nil
+//@   modifies state(ctx)
+//@   flag havoc=UpdateAVSInfo
+//@   before[C10.pavs.deregister.bind] UpdateAVSInfo requires arg_params.AvsAddress == ethaddrstr(old(contract.CallerAddress))
+
+//@ func (Precompile).UpdateAVS
+//@   requires contract != nil
+//@   modifies state(ctx)
+//@   flag havoc=GetAVSParamsFromUpdateInputs,UpdateAVSInfo
+//@   before[C10.pavs.update.bind]  UpdateAVSInfo requires arg_params.AvsAddress == ethaddrstr(old(contract.CallerAddress))
+//@   before[C10.pavs.update.owner] UpdateAVSInfo requires avsRaw(ctx, arg_params.AvsAddress) != nil &&
+//@        contains(avsInfoOf(ctx, arg_params.AvsAddress).AvsOwnerAddress, arg_params.CallerAddress)
+
+//@ func (Precompile).BindOperatorToAVS
+//@   requires contract != nil
+//@   modifies state(ctx)
+//@   flag havoc=OperatorOptAction
+//@   before[C10.pavs.bind.bind] OperatorOptAction requires arg_params.AvsAddress == ethaddrstr(old(contract.CallerAddress))
+
+//@ func (Precompile).UnbindOperatorToAVS
+//@   requires contract != nil
+//@   modifies state(ctx)
+//@   flag havoc=OperatorOptAction
+//@   before[C10.pavs.unbind.bind] OperatorOptAction requires arg_params.AvsAddress == ethaddrstr(old(contract.CallerAddress))
+
+//@ func (Precompile).CreateAVSTask
+//@   requires contract != nil
+//@   modifies state(ctx)
+//@   flag havoc=GetTaskParamsFromInputs,Keeper).CreateAVSTask
+//@   before[C10.pavs.task.bind] Keeper).CreateAVSTask requires arg_params.TaskContractAddress == ethaddrstr(old(contract.CallerAddress))
